@@ -295,6 +295,90 @@ def run_case(base, c, sh):
         vp.rmtree(os.path.join(base, "ctl-%d" % c["idx"]))
 
 
+# --------------------------------------------------------------------------
+# several programmatic invocations in ONE process (libcnb_runtime_detect / libcnb_runtime_build are exposed for that):
+# every invocation gets the context of ITS inputs, nothing carried over from an earlier one
+
+def run_inproc(base, seq_idx, seed, sh):
+    import subprocess
+    r = vp.rng(seed, "c06-inproc", seq_idx)
+    root = os.path.join(base, "seq%d" % seq_idx)
+    invs, wants = [], []
+    try:
+        for k in range(r.randint(2, 4)):
+            lay = phase.Layout(os.path.join(root, "inv%d" % k))
+            lay.create()
+            ident = {"id": "vp/inproc-%d-%d" % (seq_idx, k), "version": "%d.%d.%d" % (k, r.randrange(9), r.randrange(9)), "name": r.choice(["N%d" % k, "日本 %d" % k]),
+                     "metadata": {"which": "invocation %d" % k, "n": k}}
+            with open(os.path.join(lay.bp, "buildpack.toml"), "w") as f:
+                f.write(tomlw.selfcheck({"api": "0.10", "buildpack": {"id": ident["id"], "version": ident["version"], "name": ident["name"]}, "metadata": ident["metadata"]}))
+            env_files = {("VAR_%d" % k).encode(): ("value of invocation %d" % k).encode(), b"SHARED": ("shared-%d" % k).encode()}
+            if r.random() < 0.3:
+                env_files = {}
+            os.makedirs(os.path.join(lay.platform, "env"))
+            for n, v in env_files.items():
+                with open(os.path.join(os.fsencode(lay.platform), b"env", n), "wb") as f:
+                    f.write(v)
+            ph = r.choice(["detect", "build"])
+            plan = [("dep-%d" % k, {"inv": k})] if ph == "build" else []
+            with open(lay.plan, "w") as f:
+                f.write(tomlw.selfcheck({"entries": [{"name": n, "metadata": m} for n, m in plan]}) if plan else "")
+            store = None
+            if ph == "build" and r.random() < 0.6:
+                store = {"from": "invocation %d" % k}
+                with open(os.path.join(lay.layers, "store.toml"), "w") as f:
+                    f.write(tomlw.selfcheck({"metadata": store}))
+            targets = {"CNB_TARGET_OS": r.choice(["linux", "windows"]), "CNB_TARGET_ARCH": r.choice(["amd64", "arm64"]), "CNB_TARGET_DISTRO_NAME": "distro%d" % k, "CNB_TARGET_DISTRO_VERSION": "%d.04" % k}
+            unset = []
+            if r.random() < 0.5:
+                targets["CNB_TARGET_ARCH_VARIANT"] = "v%d" % k
+            else:
+                unset.append("CNB_TARGET_ARCH_VARIANT")
+            result = os.path.join(lay.root, "result.json")
+            invs.append({"phase": ph, "env": [["CNB_BUILDPACK_DIR", lay.bp]] + [[a, b] for a, b in targets.items()], "unset": unset, "cwd": lay.app,
+                         "args": lay.detect_args() if ph == "detect" else lay.build_args(), "script": {"marker": lay.marker, "dump": lay.dump}, "result": result})
+            wants.append({"lay": lay, "ident": ident, "env": env_files, "phase": ph, "plan": plan, "store": store, "targets": targets, "result": result})
+        planfile = os.path.join(root, "inproc.json")
+        with open(planfile, "w") as f:
+            json.dump({"invocations": invs}, f)
+        p = subprocess.run([os.path.join(vp.BIN, "vpbp")], env={"PATH": "/usr/bin:/bin", "VPBP_INPROC": planfile}, stdout=subprocess.PIPE, stderr=subprocess.PIPE, timeout=60)
+        case = {"kind": "inproc", "seq": seq_idx, "phases": [w["phase"] for w in wants]}
+        for k, w in enumerate(wants):
+            sh.evaluations += 1
+            what = "invocation #%d (%s) of %d in one process" % (k, w["phase"], len(wants))
+            if not os.path.exists(w["result"]) or not os.path.exists(w["lay"].dump):
+                sh.violation("inproc:not-run", "%s did not run to the buildpack code: process exit %d, stderr %s" % (what, p.returncode, p.stderr.decode(errors="replace")[-300:]), case)
+                return
+            res = json.load(open(w["result"]))
+            got = json.load(open(w["lay"].dump))
+            if res != {"code": 0}:
+                sh.violation("inproc:result", "%s returned %r" % (what, res), case)
+                return
+            d = got["descriptor"]
+            bad = []
+            if (d["id"], d["version"], d["name"]) != (w["ident"]["id"], w["ident"]["version"], w["ident"]["name"]) or not tomlw.same(tomlw.untagged(d["metadata"]), w["ident"]["metadata"]):
+                bad.append("descriptor %r (its buildpack.toml: %r)" % ({k2: d[k2] for k2 in ("id", "version", "name")}, w["ident"]))
+            if got["buildpack_dir"] != w["lay"].bp or got["app_dir"] != w["lay"].app or (w["phase"] == "build" and got["layers_dir"] != w["lay"].layers):
+                bad.append("directories %r / %r" % (got["buildpack_dir"], got["app_dir"]))
+            if {bytes.fromhex(a): bytes.fromhex(b) for a, b in got["platform_env"]} != w["env"]:
+                bad.append("platform env %r (its files: %r)" % (got["platform_env"], w["env"]))
+            t = w["targets"]
+            if got["target"] != {"os": t["CNB_TARGET_OS"], "arch": t["CNB_TARGET_ARCH"], "arch_variant": t.get("CNB_TARGET_ARCH_VARIANT"), "distro_name": t["CNB_TARGET_DISTRO_NAME"], "distro_version": t["CNB_TARGET_DISTRO_VERSION"]}:
+                bad.append("target %r (its environment: %r)" % (got["target"], t))
+            if w["phase"] == "build":
+                if [(e["name"], tomlw.untagged(e["metadata"])) for e in got["plan"]] != [(n, m) for n, m in w["plan"]]:
+                    bad.append("plan %r" % (got["plan"],))
+                gs = None if got["store"] is None else tomlw.untagged(got["store"])
+                if gs != w["store"]:
+                    bad.append("store %r (its store.toml: %r)" % (gs, w["store"]))
+            if bad:
+                sh.violation("inproc:carried-over", "%s: the context does not reflect this invocation's inputs: %s" % (what, "; ".join(bad)), case)
+                return
+        sh.nontrivial.add(("inproc", tuple(w["phase"] for w in wants)))
+    finally:
+        vp.rmtree(root)
+
+
 def shard_run(arg):
     seed, idxs, work = arg
     sh = vp.Shard()
@@ -303,6 +387,8 @@ def shard_run(arg):
     try:
         for idx in idxs:
             run_case(base, gen_case(vp.rng(seed, "c06", idx), idx), sh)
+            if idx % 10 == 3:
+                run_inproc(base, idx, seed, sh)
     finally:
         vp.rmtree(base)
     return sh.dict()
@@ -324,9 +410,12 @@ def replay(case, work):
     res = vp.Result("C06", "quick", 0, "exploration")
     seed = int(os.environ.get("VERIF_SEED", "0"))
     sh = vp.Shard()
-    run_case(work, gen_case(vp.rng(seed, "c06", case["idx"]), case["idx"]), sh)
+    if case.get("kind") == "inproc":
+        run_inproc(work, case["seq"], seed, sh)
+    else:
+        run_case(work, gen_case(vp.rng(seed, "c06", case["idx"]), case["idx"]), sh)
     sh.nontrivial.update({"replay-a", "replay-b"})
     res.merge(sh.dict())
     res.rule = "replay of one recorded case (regenerated from VERIF_SEED and its index)"
-    res.sample({"idx": case["idx"]})
+    res.sample({"idx": case.get("idx", case.get("seq"))})
     return res
